@@ -50,6 +50,8 @@ func propC03(w *World, r *Report) {
 		r.Assumes(a)
 	}
 	RunLosslessFor(w, r, "C03", newBoundsRun(w))
+	RunSearchFields(w, r, map[string]bool{"header.Write": true})
+	r.Floor("searchfields", 3)
 }
 
 func callsNamed(fn *ssa.Function, name string) []*ssa.Call {
